@@ -238,6 +238,7 @@ def iter_of(I, v, by_ref=True):
     it = RIter(nxt, "iter")
     it.src = src
     it.state = state
+    it.len_fn = lambda: len(src.items) - state["i"]
     return it
 
 
@@ -277,36 +278,16 @@ def m_identity(I, args, fn, expr):
     # Conversions between a value and a view / owner of the same data are transparent.  A local
     # `From` / `Into` impl is dispatched before this model is consulted only when resolved by rustc;
     # otherwise the evaluator looks for a local impl by the argument's ADT.
-    if fn["name"] in ("into", "from", "as_ref", "borrow", "deref", "to_string"):
-        item = _local_conversion(I, fn, args, expr)
-        if item is not None:
-            return I.call_item(item, args)
     v = args[0]
-    if fn["name"] in ("copied", "cloned", "as_deref") or fn["path"].endswith("Option::<T>::as_ref"):
-        return v
+    if fn["name"] in ("into", "from") and expr is not None:
+        # A conversion that rustc could not resolve (neither in the generic body nor for the current
+        # instance) and whose target is a local type different from the argument's: not an identity.
+        t = I.F.types[expr["ty"]]
+        a = strip(v)
+        if t.get("k") == "adt" and isinstance(a, Adt) and a.path != t["adt"] and I.F.adts.get(t["adt"], {}).get("local") \
+                and fn.get("mono") is None and not fn.get("via_from"):
+            return I.top("unresolved conversion %s -> %s" % (a.path, t["adt"]))
     return v
-
-
-def _local_conversion(I, fn, args, expr):
-    """`x.into()` / `T::from(x)` with a local impl that rustc could not resolve at the generic call
-    site: choose by target type (the call's static result type) and the argument's ADT."""
-    if expr is None or fn["name"] not in ("into", "from"):
-        return None
-    t = I.F.types[expr["ty"]]
-    if t.get("k") != "adt":
-        return None
-    target = t["adt"]
-    a = strip(args[0])
-    src = a.path if isinstance(a, Adt) else None
-    cands = []
-    for it in I.F.items.values():
-        if it.kind == "AssocFn" and it.name == "from" and it.impl_trait == "std::convert::From" and it.impl_adt == target:
-            cands.append(it)
-    if src is not None:
-        sel = [c for c in cands if c.impl_trait_ref and ("<" + src) in c.impl_trait_ref.replace("std::convert::From", "")]
-        if len(sel) == 1:
-            return sel[0]
-    return None
 
 
 @model("std::clone::Clone::clone")
@@ -857,7 +838,7 @@ def m_string_push(I, args, fn, expr):
         s2 = strb_of(s2)
         r.place.set(s2)
     s2.extend(args[1])
-    I.emit("push", s2.text())
+    I.emit("push", s2.text(), "top" if s2 is getattr(I, "top_pattern", None) else "nested")
     return UNIT
 
 
@@ -1018,8 +999,8 @@ def m_len(I, args, fn, expr):
     l = strip(args[0])
     if isinstance(l, RList):
         return len(l.items)
-    if isinstance(l, RIter) and hasattr(l, "src"):
-        return len(l.src.items) - l.state["i"]
+    if isinstance(l, RIter) and getattr(l, "len_fn", None) is not None:
+        return l.len_fn()
     return Sym("len(%s)" % _nm(l), expr["ty"] if expr else None)
 
 
@@ -1060,7 +1041,7 @@ def m_from_ref(I, args, fn, expr):
 
 
 @model("core::slice::<impl [T]>::iter", "std::collections::VecDeque::<T, A>::iter",
-       "core::slice::<impl [T]>::iter_mut")
+       "core::slice::<impl [T]>::iter_mut", "std::collections::HashSet::<T, S, A>::iter")
 def m_slice_iter(I, args, fn, expr):
     return iter_of(I, args[0], by_ref=True)
 
@@ -1114,7 +1095,9 @@ def _as_iter(I, v):
 def m_iter_map(I, args, fn, expr):
     src = _as_iter(I, args[0])
     f = args[1]
-    return RIter(lambda: I.call_value(f, [src.next()]), "map")
+    it = RIter(lambda: I.call_value(f, [src.next()]), "map")
+    it.len_fn = getattr(src, "len_fn", None)
+    return it
 
 
 @model("std::iter::Iterator::filter")
@@ -1242,7 +1225,9 @@ def m_iter_enumerate(I, args, fn, expr):
         i = state["i"]
         state["i"] += 1
         return Tup([i, v])
-    return RIter(nxt, "enumerate")
+    it = RIter(nxt, "enumerate")
+    it.len_fn = getattr(src, "len_fn", None)
+    return it
 
 
 @model("std::iter::Iterator::rev")
@@ -1256,7 +1241,9 @@ def m_iter_rev(I, args, fn, expr):
         if not state["items"]:
             raise StopIteration
         return state["items"].pop()
-    return RIter(nxt, "rev")
+    it = RIter(nxt, "rev")
+    it.len_fn = getattr(src, "len_fn", None)
+    return it
 
 
 @model("std::iter::Iterator::chain")
@@ -1295,7 +1282,7 @@ def m_iter_collect(I, args, fn, expr):
     if t.get("adt") in (RESULT, OPTION):
         out = []
         for x in items:
-            x = strip(x)
+            x = res(I, x) if t.get("adt") == RESULT else opt(I, x)
             if isinstance(x, Adt) and x.variant in ("Err", "None"):
                 return x
             out.append(x.fields["0"])
@@ -1517,7 +1504,7 @@ def m_with_position(I, args, fn, expr):
             p = "Last"
         else:
             p = "Middle"
-        I.emit("iter", i, p)
+        I.emit("iter", i, p, len(I.callstack))
         return Tup([Adt("itertools::Position", p, {}), items[i]])
     return RIter(nxt, "with_position")
 
@@ -1601,3 +1588,45 @@ def m_regex_new(I, args, fn, expr):
     s = Sym("Regex::new(%s)" % _nm(args[0]), expr["ty"] if expr else None)
     s.pattern = strip(args[0])
     return s
+
+
+@model("std::collections::HashSet::<T, S, A>::insert")
+def m_hashset_insert(I, args, fn, expr):
+    l = _list_ref(I, args[0], "insert")
+    for x in l.items:
+        if values_equal(I, x, args[1]):
+            return False
+    l.items.append(args[1])
+    return True
+
+
+ORDERING = "std::cmp::Ordering"
+
+
+def _ordering(I, a, b):
+    a, b = strip(a), strip(b)
+    if isinstance(a, Char) and isinstance(b, Char):
+        a, b = ord(a.c), ord(b.c)
+    if isinstance(a, int) and isinstance(b, int) and not isinstance(a, bool) and not isinstance(b, bool):
+        return Adt(ORDERING, "Less" if a < b else ("Greater" if a > b else "Equal"), {})
+    if isinstance(a, Top) or isinstance(b, Top):
+        raise Abort("comparison of unanalysable value")
+    names = ["Less", "Equal", "Greater"]
+    c = I.decide("cmp(%s, %s)" % (_nm(a), _nm(b)), names)
+    return Adt(ORDERING, names[c], {})
+
+
+@model("std::cmp::Ord::cmp")
+def m_ord_cmp(I, args, fn, expr):
+    item = I.dispatch_local_trait("std::cmp::Ord", "cmp", args)
+    if item is not None and not item.expn:
+        return I.call_item(item, args)
+    return _ordering(I, args[0], args[1])
+
+
+@model("std::cmp::PartialOrd::partial_cmp")
+def m_partial_cmp(I, args, fn, expr):
+    item = I.dispatch_local_trait("std::cmp::PartialOrd", "partial_cmp", args)
+    if item is not None and not item.expn:
+        return I.call_item(item, args)
+    return some(_ordering(I, args[0], args[1]))
